@@ -362,6 +362,15 @@ impl InnerInMemory {
             match self.inner_lookup(&next_name, query_type, lookup_options) {
                 // Intermediate CNAME — keep chasing.
                 Some(rr_set) if rr_set.record_type() == RecordType::CNAME => chain.push(rr_set),
+                // The target is at or below a zone cut: the lookup returned the delegation's NS
+                // RRset, which is not data of this zone and not an answer to the query.
+                Some(rr_set)
+                    if rr_set.record_type() == RecordType::NS
+                        && query_type != RecordType::NS
+                        && query_type != RecordType::ANY =>
+                {
+                    break;
+                }
                 // Terminal record (A, AAAA, MX, etc.).
                 Some(rr_set) => {
                     chain.push(rr_set);
